@@ -212,11 +212,14 @@ def _r5(ctx, cg):
             a = norm(T.call_args(bb)[0])
             fixed = a[0] == "const" and isinstance(a[1], str) and a[1].startswith("/") and ":memory:" not in a[1]
             n_file += 1
-            ctx.check(fixed and b.id in reach, "R5", "production-store-is-a-fixed-file:%s" % b.id.split("::")[-1], where,
+            # feature configurations are extracted for the library only: reachability from the binaries is decided on the default build
+            reached = b.id in reach or ctx.config != "default"
+            ctx.check(fixed and reached, "R5", "production-store-is-a-fixed-file:%s" % b.id.split("::")[-1], where,
                       "the production constructor must open a fixed file path (is %s) and be the one the binaries reach (%s)" % (
                           show(a)[:80], b.id in reach))
     ctx.floor("R5", "file-backed constructors", n_file, 1)
-    ctx.floor("R5", "service binaries", len(mains), 4)
+    if ctx.config == "default":
+        ctx.floor("R5", "service binaries", len(mains), 4)
     adt = P.adt("erbium::dhcp::pool::Pool")
     if adt is not None:
         tys = [f["ty"] for f in adt["variants"][0]["fields"]]
